@@ -872,7 +872,7 @@ func (c *FnCtx) lookup(fr *Frame, st *State, x *ssa.Lookup) SV {
 func (c *FnCtx) mapUpdate(fr *Frame, st *State, x *ssa.MapUpdate) {
 	m := x.Map.Type().Underlying().(*types.Map)
 	ref := c.term(fr, st, x.Map)
-	c.safety("nil", st, Not(Eq(ref, IntLit(0))))
+	c.nilSafety(st, ref)
 	key, ks := c.mapKeyTerm(m, c.val(fr, st, x.Key))
 	c.mapStore(st, m, ref, key, ks, c.val(fr, st, x.Value))
 }
